@@ -297,7 +297,7 @@ fn fault_case(cx: &ProbeCtx, hist: &[OpId], chain: &[Faulted], cfg: &FaultCfg, d
     let sane = viols.is_empty();
     let fu = if sane && class != FaultClass::NotReached && cfg.followups && depth == 0 { followup_ops(prof, &p) } else { vec![] };
     close_check(&mut p, &format!("{extra}, then all handles dropped"), &mut viols, "C05");
-    cx.report(hist, &viols, last.op.kind_name(), tk, &extra);
+    cx.report(hist, &viols, last.op.kind_name(), tk, &format!("fault|{extra}"));
     if class == FaultClass::NotReached || !sane {
         return;
     }
@@ -327,7 +327,7 @@ fn fault_case(cx: &ProbeCtx, hist: &[OpId], chain: &[Faulted], cfg: &FaultCfg, d
         }
         let n2 = rec2.d.requests;
         close_check(&mut p, &format!("{extra}, {op2:?}, then all handles dropped"), &mut v2, "C05");
-        cx.report(hist, &v2, last.op.kind_name(), tk, &format!("{extra} then {op2:?}"));
+        cx.report(hist, &v2, last.op.kind_name(), tk, &format!("fault|{extra} then {op2:?}"));
         if cfg.pairs {
             for form2 in [Form::Plain, Form::Try] {
                 for k2 in 1..=n2 {
@@ -340,11 +340,18 @@ fn fault_case(cx: &ProbeCtx, hist: &[OpId], chain: &[Faulted], cfg: &FaultCfg, d
     }
 }
 
-/// Replay support: re-runs the probe that produced `sig` on the state reached by `hist`;
-/// the caller filters the findings by the recorded case description.
-pub fn replay_case(cx: &ProbeCtx, hist: &[OpId], sig: &str, _extra: &str) {
-    if sig.starts_with("C05/") {
-        fault_probe(cx, hist, &FaultCfg { followups: true, pairs: true });
+/// Replay support: re-runs, on the state reached by `hist`, the probe that produced a finding
+/// (the probe kind is the tag in front of the recorded case); the caller filters the findings
+/// by signature.
+pub fn replay_case(cx: &ProbeCtx, hist: &[OpId], extra: &str) {
+    match extra.split('|').next().unwrap_or("") {
+        "fault" => fault_probe(cx, hist, &FaultCfg { followups: true, pairs: true }),
+        "panic" => panic_probe(cx, hist),
+        "size" => size_probe(cx, hist),
+        "sizector" => size_ctor_sweep(cx),
+        "index" => index_probe(cx, hist),
+        "shrink" => shrink_probe(cx, hist),
+        _ => {}
     }
 }
 
@@ -578,7 +585,7 @@ fn panic_case(cx: &ProbeCtx, hist: &[OpId], slot: Option<usize>, name: &str, des
     others_unchanged(&pre, &p, slot, "C18", &desc, &mut out);
     heap_checks(&p, "C18", &desc, &mut out);
     close_check(&mut p, &format!("{desc}, then all handles dropped"), &mut out, "C18");
-    cx.report(hist, &out, name, tk, &desc);
+    cx.report(hist, &out, name, tk, &format!("panic|{desc}"));
 }
 
 pub fn panic_probe(cx: &ProbeCtx, hist: &[OpId]) {
@@ -823,7 +830,7 @@ fn size_case(cx: &ProbeCtx, hist: &[OpId], i: usize, entry: SizeEntry, n: usize,
     }
     close_check(&mut p, &format!("{desc}, then all handles dropped"), &mut out, "C06");
     let name = format!("{entry:?}").split('(').next().unwrap().to_lowercase();
-    cx.report(hist, &out, &name, tk, &desc);
+    cx.report(hist, &out, &name, tk, &format!("size|{desc}"));
 }
 
 pub fn size_probe(cx: &ProbeCtx, hist: &[OpId]) {
@@ -894,7 +901,7 @@ pub fn size_ctor_sweep(cx: &ProbeCtx) {
                 heap_checks(&p, "C06", &desc, &mut out);
             }
             close_check(&mut p, &format!("{desc}, then dropped"), &mut out, "C06");
-            cx.report(&hist, &out, "ctor", "none", &desc);
+            cx.report(&hist, &out, "ctor", "none", &format!("sizector|{desc}"));
         }
     }
 }
@@ -1011,7 +1018,7 @@ pub fn index_probe(cx: &ProbeCtx, hist: &[OpId]) {
                     others_unchanged(&pre, &p, Some(i), "C07", &desc, &mut out);
                     heap_checks(&p, "C07", &desc, &mut out);
                     close_check(&mut p, &format!("{desc}, then all handles dropped"), &mut out, "C07");
-                    cx.report(hist, &out, &format!("{op:?}").to_lowercase(), tk, &desc);
+                    cx.report(hist, &out, &format!("{op:?}").to_lowercase(), tk, &format!("index|{desc}"));
                 }
             }
         }
@@ -1064,7 +1071,7 @@ pub fn shrink_probe(cx: &ProbeCtx, hist: &[OpId]) {
                 others_unchanged(&pre, &p, Some(i), "C13", &desc, &mut out);
                 heap_checks(&p, "C13", &desc, &mut out);
                 close_check(&mut p, &format!("{desc}, then all handles dropped"), &mut out, "C13");
-                cx.report(hist, &out, if m.is_none() { "shrink_to_fit" } else { "shrink_to" }, tk, &desc);
+                cx.report(hist, &out, if m.is_none() { "shrink_to_fit" } else { "shrink_to" }, tk, &format!("shrink|{desc}"));
             }
         }
     }
